@@ -19,6 +19,7 @@ pub fn exec_hist(ops: Vec<Op>) -> Case {
     let r = in_fresh_thread(move || {
         intern_names();
         fresh_noise(&enc_ops(&ops2));
+        crate::suites::eg::warm_up(&enc_ops(&ops2));
         let mut eg: EGraph<Main> = EGraph::default();
         let mut tracked: Vec<AppliedId> = Vec::new();
         let mut slots_seen: Vec<usize> = Vec::new();
